@@ -577,6 +577,30 @@ fn judge_c12(script: &SockScript, l: &SockLog) -> Vec<SFinding> {
             v.push(sf("C12", "limit", "limit/streams-table-exceeds-max-live-vsocks", format!("socket {i}: the connection table held {m} entries, max_live_vsocks is {}", script.cfgs[i].max_live)));
         }
     }
+    // a live connection object always has its entry in the connection table (without it no datagram reaches it)
+    for (t, live, streams) in &l.table_probes {
+        if live > streams {
+            v.push(sf(
+                "C12",
+                "isolation",
+                "isolation/live-connection-without-table-entry",
+                format!("at {t} us {live} connection object(s) are alive but the socket's connection table holds {streams} entries: the clean-up request of a dead connection removed the entry of the connection that re-used its key"),
+            ));
+        }
+    }
+    // a connection accepted in (or after) the instant an older one with the same key died must not be taken
+    // down by the older one's clean-up: a silent peer cannot end it within 30 ms, nothing else may
+    if let (Some(first_death), Some((t_probe, live, _))) = (l.lifecycle.iter().find(|(_, created, _, _)| !*created).map(|(t, _, _, _)| *t), l.table_probes.first()) {
+        let accepted_since: usize = l.accepts.iter().filter(|a| matches!(a.done, Done::Ok { .. }) && a.done_us.map(|t| t >= first_death).unwrap_or(false)).count();
+        if accepted_since > *live && !l.reuse_hit.is_empty() {
+            v.push(sf(
+                "C12",
+                "isolation",
+                "isolation/new-connection-taken-down-by-clean-up-of-a-dead-one",
+                format!("{accepted_since} connection(s) were accepted at or after {first_death} us (the instant an older connection with the same address and id died); at {t_probe} us only {live} connection object(s) are alive: the older connection's clean-up request removed the new connection's table entry and it ended at once"),
+            ));
+        }
+    }
     // every stream carries its own bytes
     for (i, c) in l.connects.iter().enumerate() {
         if let Done::Ok { payload_ok: false, .. } = c.done {
@@ -845,6 +869,69 @@ pub fn c12(ctx: &Ctx) -> Outcome {
         p.distinct_outcomes = p.distinct_nontrivial;
         p.bound = format!("three connections (two A->B, one B->A) opened in one instant{}, every single drop/dup/delay(15 ms, 300 ms) of each of the {n} datagrams (a SYN is duplicated or delayed, not dropped)", if spare { ", one more accept parked on each socket" } else { "" });
         p.samples.push(json!({"plan": [[7, "Drop"]]}));
+        out.parts.push(p);
+    }
+    // a peer that reconnects with the same connection id in the instant its old connection dies here: the
+    // dead connection's queued clean-up request must not remove the new connection's table entry
+    {
+        let mut p = Part::fe("sock:c12-key-reuse-at-death");
+        let mut seen = std::collections::HashSet::new();
+        let mut hits = 0u64;
+        let seeds: Vec<u64> = (1..=ctx.tier.pick(16u64, 64u64)).collect();
+        let variants: Vec<(&str, Vec<(Ev, bool)>)> = vec![
+            // the accepted connection dies of the fake peer's silence (SYN-ACK repeats run out)
+            ("silent-peer", vec![(Ev::RawSyn { to: 0, fake: 0 }, false), (Ev::Accept { sock: 0 }, false), (Ev::Accept { sock: 0 }, false), (Ev::ReuseKeyAtDeath { to: 0, fake: 0 }, false), (Ev::Wait(30), false), (Ev::ProbeTable { to: 0 }, false), (Ev::Wait(300), false), (Ev::ProbeTable { to: 0 }, false)]),
+            // the application drops the accepted stream first
+            ("dropped-stream", vec![(Ev::RawSyn { to: 0, fake: 0 }, false), (Ev::Accept { sock: 0 }, false), (Ev::Accept { sock: 0 }, false), (Ev::Settle, false), (Ev::CloseOldest, false), (Ev::ReuseKeyAtDeath { to: 0, fake: 0 }, false), (Ev::Wait(30), false), (Ev::ProbeTable { to: 0 }, false), (Ev::Wait(300), false), (Ev::ProbeTable { to: 0 }, false)]),
+        ];
+        // second form: a first run tells the instant of death; the datagrams are then sent one path latency
+        // earlier, so that they arrive in that instant whatever runs first in it (offsets of +-1 ms too)
+        let mut timed: Vec<(String, Vec<(Ev, bool)>)> = vec![];
+        for (n, ev) in &variants {
+            let script = SockScript { cfgs: cfg_n(1, 64, &[500]), events: ev.clone(), rng_seed: 1, latency_us: 10_000, plan: vec![] };
+            let l = run(&script);
+            if let Some(td) = l.lifecycle.iter().find(|(_, created, _, _)| !*created).map(|(t, _, _, _)| *t) {
+                for off in [-1000i64, 0, 1000] {
+                    let ev2: Vec<(Ev, bool)> = ev.iter().map(|(e, s)| (if let Ev::ReuseKeyAtDeath { to, fake } = e { Ev::ReuseKeyAt { to: *to, fake: *fake, at_us: (td as i64 + off) as u64 } } else { e.clone() }, *s)).collect();
+                    timed.push((format!("{n}-timed{off:+}"), ev2));
+                }
+            }
+        }
+        let mut variants: Vec<(String, Vec<(Ev, bool)>)> = variants.iter().map(|(n, e)| (n.to_string(), e.clone())).collect();
+        variants.extend(timed);
+        let cases: Vec<(String, Vec<(Ev, bool)>, u64)> = variants.iter().flat_map(|(n, ev)| seeds.iter().map(move |s| (n.clone(), ev.clone(), *s))).collect();
+        let results: Vec<(Vec<SFinding>, u64, bool, Vec<(u64, usize, usize)>, Vec<u8>)> = cases
+            .par_iter()
+            .map(|(_, ev, seed)| {
+                let script = SockScript { cfgs: cfg_n(1, 64, &[500]), events: ev.clone(), rng_seed: *seed, latency_us: 10_000, plan: vec![] };
+                let l = run(&script);
+                (judge_c12(&script, &l), l.trace_hash, l.reuse_hit.iter().all(|h| *h) && !l.reuse_hit.is_empty(), l.table_probes.clone(), l.arms.iter().map(|(_, a)| *a).collect::<Vec<u8>>())
+            })
+            .collect();
+        let mut classes = std::collections::BTreeSet::new();
+        for ((n, ev, seed), (fs, h, hit, probes, arms)) in cases.iter().zip(results) {
+            p.evaluations += 1;
+            if seen.insert(h) {
+                p.distinct_nontrivial += 1;
+            }
+            if hit {
+                hits += 1;
+            }
+            classes.insert(format!("{n}: (live, entries) {:?} dispatcher arms {:?}", probes.iter().map(|(_, l, s)| (*l, *s)).collect::<Vec<_>>(), arms));
+            for f in fs {
+                if !out.violations.iter().any(|v| v.signature == f.signature) {
+                    let script = SockScript { cfgs: cfg_n(1, 64, &[500]), events: ev.clone(), rng_seed: *seed, latency_us: 10_000, plan: vec![] };
+                    out.violations.push(Violation { property: f.property.to_string(), monitor: f.monitor.to_string(), signature: f.signature.clone(), detail: format!("[key-reuse {n} seed {seed}] {}", f.detail), replay: replay_json(&script, "c12") });
+                }
+            }
+        }
+        if hits == 0 {
+            machinery_error("C12 key-reuse: no execution saw the first connection die (vacuous)");
+        }
+        p.distinct_outcomes = classes.len() as u64;
+        p.extra.insert("outcome_classes".into(), json!(classes));
+        p.bound = format!("2 ways for the first connection to die x {} select! seeds; in the instant its object is dropped a datagram for its receive key and a new SYN with the same id arrive; (live objects, table entries) probed 30 ms and 330 ms later; {hits} executions hit the instant", seeds.len());
+        p.samples.push(json!({"variant": "silent-peer", "seed": 1}));
         out.parts.push(p);
     }
     out.rule = "C12: every sequence of connect/accept/close events up to the stated length over 2 and 3 sockets, for connection limits 1, 2, 3, 64 and adjacent / equal first connection ids on the two sides; per-stream position-coded payloads in both directions; single-fault interleavings".into();
